@@ -3,14 +3,23 @@
 Implementation-level oracle (model-free), on real subprocess runs of bin/dippy-hook:
   * the same command / cwd / configuration submitted in each host's own input shape (all Gemini
     tool-name aliases) is decoded - by readers written from docs/hook-systems/*.md - to the same
-    (verdict, reason) by the three hosts;
+    (verdict, reason) by the three hosts; beyond the hand-picked commands, for ~1000 (thorough ~6000) commands: every
+    composition constructor x verdict classes, random compositions, every name of the safe list / wrapper list /
+    handler table in several argument forms (in-process sweep, differences confirmed by real processes);
   * every answer validates against the answering host's key / vocabulary schema;
   * the answering mode is: explicit flag or DIPPY_* variable first (claude > gemini > cursor), else
     the input shape - over all flag subsets and DIPPY_* values;
   * forcing a mode never changes the verdict the same input gets without flags;
   * the working directory is the payload's top-level cwd, else tool_input.cwd, else the process's own -
     under every forced mode and auto, for all three shapes: the process runs in a project whose .dippy
-    denies the probe while the payload's directories allow / ask it, so the verdict shows which was used.
+    denies the probe while the payload's directories allow / ask it, so the verdict shows which was used;
+  * only the host-written level of the payload decides the answering host, the command and the directory (harness/hookplace.py):
+    a tool_name / command / tool_input / cwd key anywhere the host does not write it (inside tool_input, tool_response, other
+    members, near-miss spellings, ...) x what the top level holds x the three shapes + MCP x every forced mode (flags and
+    DIPPY_* variables) leaves the answer byte-for-byte what it is without that key;
+  * an argv word / a DIPPY_* value / a variable name that is only a near-miss of a mode flag / a truthy value / a variable
+    (case, padding, truncation, plural, `=value`, doubled dashes, ...) selects nothing; a truthy value in any case does; the
+    position of a flag among the arguments is irrelevant.
 Correspondence: Model/Hook.v main == the real process on all those runs; detect_mode_from_input ==
 dippy.dippy._detect_mode_from_input over the JSON type grid; Hook.decode / Hook.conforms == the
 Python host readers on the real outputs."""
@@ -23,6 +32,7 @@ import random
 from . import core, lib
 from . import hookgen as g
 from . import hooklib as H
+from . import hookplace as P
 
 TRUSTED = [
     "Coq 8.16.1 kernel and its VM",
@@ -130,6 +140,76 @@ def build_cases(sc, tier, rng):
     return groups, singles
 
 
+def command_family(tier, rng):
+    """Commands of every kind the analyser distinguishes: all composition constructors x verdict classes (harness/bashgen.py),
+    random compositions, and every known NAME - safe list, wrapper list, handler table - bare, with an argument, with --help."""
+    from dippy import cli
+    from dippy.core import allowlists as al
+
+    from . import bashgen as bg
+
+    by_cls = {"allow": [bg.Atom(t, "allow") for t in bg.ALLOW_CMDS], "ask": [bg.Atom(t, "ask") for t in bg.ASK_CMDS],
+              "deny": [bg.Atom(t, "deny") for t in bg.DENY_CMDS]}
+    cmds = [p.text for p in bg.systematic(by_cls)]
+    pool, redirs = bg.atoms_cmd(), bg.atoms_redir()
+    for _ in range(250 if tier == "quick" else 4000):
+        cmds.append(bg.rand_prog(rng, rng.randint(1, 3), pool, redirs).text)
+    names = sorted(set(al.SIMPLE_SAFE) | set(al.WRAPPER_COMMANDS) | set(getattr(cli, "KNOWN_HANDLERS", {})))
+    for i, n in enumerate(names):
+        forms = [n, n + " x", n + " --help", n + " -rf x > out.txt", "sudo " + n, n + " | zap"]
+        cmds += forms if tier == "thorough" else [forms[i % len(forms)], forms[(i + 1) % len(forms)]]
+    return list(dict.fromkeys(cmds))
+
+
+def command_sweep(sc, out, tier, rng):
+    """For ALL those commands: the three hosts' own shapes decode to the same (verdict, reason), each envelope conforms - run
+    in-process (harness/hook_sweep_worker.py), every difference re-run as real processes."""
+    import time
+
+    t0 = time.time()
+    wd = sc.proj(None)
+    cmds = command_family(tier, rng)
+    items = []
+    for cmd in cmds:
+        for shape in g.SHAPES:
+            t = json.dumps(g.base_input(shape, cmd, wd))
+            items.append(P.Item(text=t, twin=t, expect="twin", flags=(), env={}, field=shape, value=cmd, label="cmdsweep:" + shape, dims={}))
+    results = P.sweep(sc, items, user_cfg=CFG, workers=1)
+    bad = []
+    for i in range(0, len(items), 3):
+        reads = []
+        for it in items[i:i + 3]:
+            stdout, exc = results[(it.text, (), ())]
+            parsed = H.parse_stdout(stdout.encode("utf-8", "surrogateescape"))
+            d = H.any_decision(parsed[0][1]) if len(parsed) == 1 and parsed[0][0] == "J" else None
+            if d is None or exc:
+                reads.append(("?", stdout[:80], exc))
+            else:
+                errs = H.host_schema_errors(d[0], parsed[0][1])
+                reads.append((d[1], d[2], d[0] == it.field, tuple(errs)))
+        out.evaluations += 1
+        out.count("command_sweep", reads[0][0] if reads[0] else "?")
+        if len(set(reads)) != 1 or reads[0][0] == "?" or reads[0][2] is not True or reads[0][3]:
+            bad.append((items[i].value, reads))
+    out.distinct.update(lib.sha(["cmdsweep", c]) for c in cmds)
+    confirmed = 0
+    for cmd, reads in bad[:8]:
+        grp = [H.Case(g.dumps(g.base_input(sh, cmd, wd)), label=f"same:sweep:{sh}", user_cfg=CFG) for sh in g.SHAPES]
+        H.run_cases(sc, grp)
+        vs = [verdict_of(c) for c in grp]
+        rd = [(v[1:] if v[0] in H.MODES else v) for v in vs]
+        schema = [H.host_schema_errors(v[0], H.parse_stdout(c.out)[0][1]) if v[0] in H.MODES else ["no decision"] for v, c in zip(vs, grp)]
+        if any(r != rd[0] for r in rd) or any(schema) or [v[0] for v in vs] != list(g.SHAPES):
+            confirmed += 1
+            out.violations.append({"kind": "hosts", "what": f"the hosts read different answers for {cmd!r}: {rd} (formats {[v[0] for v in vs]}, schema {schema})",
+                                   "members": [H.describe(c, sc) for c in grp], **H.describe(grp[0], sc), "signature_text": f"hosts-differ | sweep | {cmd[:40]}"})
+    if bad and confirmed < min(len(bad), 8):
+        out.disagreements.append({"correspondence": "in-process sweep (hook_sweep_worker.py) <-> bin/dippy-hook process",
+                                  "detail": f"{min(len(bad), 8) - confirmed} cross-host differences did not show in real processes", "command": bad[0][0], "reads": str(bad[0][1])})
+    out.extra["command_sweep"] = {"commands": len(cmds), "in_process_differences": len(bad), "confirmed_by_real_processes": confirmed,
+                                  "seconds": round(time.time() - t0, 1)}
+
+
 def verdict_of(c):
     """(mode of the envelope, verdict, reason) or ('{}',) / ('text', ...) / ('bad', ...)"""
     items = H.parse_stdout(c.out)
@@ -154,7 +234,11 @@ def run(tier, seed, replay=None):
     hm = None
     xcheck = []
     try:
-        if replay:
+        placed = None
+        if replay and replay.get("twin_case"):
+            placed = P.replay_pair(sc, out, replay, "hosts")
+            groups, singles = [], []
+        elif replay:
             groups, singles = ([("replay", [H.replay_case(sc, r) for r in replay["members"]])], []) if "members" in replay \
                 else ([], [H.replay_case(sc, replay)])
         else:
@@ -162,6 +246,17 @@ def run(tier, seed, replay=None):
         allc = [c for _, grp in groups for c in grp] + singles
         H.run_cases(sc, allc)
         hm = H.HookModel(sc)
+        if placed is not None:
+            allc = [placed]
+        elif not replay:
+            hosts = ["claude", "gemini", "cursor", "mcp"] + ["gemini:" + a for a in H.GEMINI_ALIASES]
+            place_cases, _ = P.run_placement(sc, out, tier, "hosts", hm=hm, sample_limit=50, events=("pre",), host_names=hosts,
+                                             fields=("tool_name", "command", "tool_input", "cwd"), forced=P.FORCED + P.FORCED_ENV)
+            allc = allc + place_cases
+            # near-miss spellings of the mode flags, of the truthy values and of the variable names
+            P.run_mode_spellings(sc, out, tier)
+            # "for all commands": composition constructors, random programs, every known command name - three hosts each
+            command_sweep(sc, out, tier, rng)
 
         def bad(what, sig, c, **more):
             out.violations.append({"kind": "hosts", "what": what, **H.describe(c, sc), **more, "signature_text": f"{sig} | {c.label}"})
@@ -250,6 +345,7 @@ def run(tier, seed, replay=None):
         if hm:
             hm.close()
         sc.close()
+    xcheck = xcheck + getattr(out, "xview", [])[:8]
     n, mism = core.coq_crosscheck("C12", xcheck)
     out.extra["coq_vm_crosscheck"] = {"cases": n, "mismatches": len(mism)}
     if mism:
@@ -261,7 +357,10 @@ def run(tier, seed, replay=None):
         "its DIPPY_* variable; singles: 8 flag subsets x 3 shapes, 9 values of each DIPPY_* variable x 3 shapes, random full "
         "combinations of flags x 3 variables x 10 values, MCP / other tools under each flag; cwd placement (top level / only in tool_input / "
         "both, different / empty or null top + tool_input / absent) x 3 shapes x {auto, 3 flags, 3 variables} with per-directory project "
-        "configs that make the verdict depend on the directory used. distinct = distinct (stdin, flags, env, "
+        "configs that make the verdict depend on the directory used; field placement (harness/hookplace.py): tool_name / command / "
+        "tool_input / cwd keys x decoy values x place (tool_input, deeper, tool_response, other object, array, nested copy, near-miss "
+        "spellings, duplicate member) x top-level state x {claude, gemini, cursor, mcp} x {auto, 3 flags, 3 variables}, in-process with "
+        "confirmation by real processes, plus a pairwise-covering sample as real processes. distinct = distinct (stdin, flags, env, "
         "config); non-trivial = a group member or a run with a flag / variable set")
     return out
 
